@@ -269,6 +269,42 @@ def ngram_summary(repo, fi: FunctionInfo) -> Optional[Dict[str, object]]:
         arg = argx if isinstance(argx, ast.Call) else ast.Call(func=ast.Name(id="_", ctx=ast.Load()), args=[argx], keywords=[])
     win = ex.norm_expr(arg.args[0], fi, st) if arg.args else None
     texts = [xt(ex.norm_expr(outer.iter, fi, outer)), xt(ex.norm_expr(inner.iter, fi, inner)), xt(win) if win is not None else "?", xt(recv)]
+    # the inner loop and the window up to a change of variable: for v in range(A, B) taking
+    # S[lo(v):hi(v)] is the sequence S[lo(i + A):hi(i + A)] for i in range(B - A)
+    try:
+        from engine.affine import lin, Lin, LinErr
+
+        if isinstance(inner.target, ast.Name) and isinstance(outer.target, ast.Name) and isinstance(inner.iter, ast.Call) and ast.unparse(inner.iter.func) == "range" and 1 <= len(inner.iter.args) <= 2 and isinstance(win, ast.Subscript) and isinstance(win.slice, ast.Slice) and win.slice.step is None:
+            tv = xt(ex.norm_expr(ast.Name(id=inner.target.id, ctx=ast.Load()), fi, st))
+            tn = xt(ex.norm_expr(ast.Name(id=outer.target.id, ctx=ast.Load()), fi, st))
+
+            def L(e_, at_):
+                t_ = xt(ex.norm_expr(e_, fi, at_)) if not isinstance(e_, str) else e_
+                t_ = t_.replace(tv, "V__").replace(tn, "N__")
+                return lin(ast.parse(t_, mode="eval").body)
+
+            ra = inner.iter.args
+            # the bounds of the inner range are evaluated at the loop head: the outer variable is N__ there too
+            tn_h = xt(ex.norm_expr(ast.Name(id=outer.target.id, ctx=ast.Load()), fi, inner))
+
+            def Lh(e_):
+                t_ = xt(ex.norm_expr(e_, fi, inner)).replace(tn_h, "N__")
+                return lin(ast.parse(t_, mode="eval").body)
+
+            A = Lh(ra[0]) if len(ra) == 2 else Lin(0)
+            B = Lh(ra[-1])
+            lo = L(xt(win.slice.lower), st) if win.slice.lower is not None else Lin(0)
+            hi = L(xt(win.slice.upper), st) if win.slice.upper is not None else None
+            if hi is not None:
+                sh = {"V__": Lin.sym("V__") + A}
+                base_t = xt(win.value).replace(tn, "N__")
+                texts[1] = f"range({(B - A)!r})"
+                texts[2] = f"{base_t}[{lo.subs(sh)!r}:{hi.subs(sh)!r}]"
+    except Exception as e_:
+        import os as _os
+
+        if _os.environ.get("C14_DEBUG"):
+            print("C14 change of variable failed:", type(e_).__name__, e_)
     conds = sorted(pconds_cy(repo, fi).at(call))
     # the result list and the lower bound: every binding with its branch facts
     binds = []
@@ -296,8 +332,9 @@ def ngram_summary(repo, fi: FunctionInfo) -> Optional[Dict[str, object]]:
                             binds.append((nm, [c for c in c_], vt))
     # renaming order: loops, receiver, bindings and their facts, guards of the site, the window last
     # (a local only the window or an extra guard uses does not shift the names of the rest)
+    win_text = texts[2]
     texts = [texts[0], texts[1], texts[3]]
-    flat = texts + [t for _, _, t in binds] + [c[0] for _, cs, _ in binds for c in cs] + [c[0] for c in conds] + [xt(win) if win is not None else "?"]
+    flat = texts + [t for _, _, t in binds] + [c[0] for _, cs, _ in binds for c in cs] + [c[0] for c in conds] + [win_text]
     ren = _alpha(flat, locals_)
     k = len(texts)
     out = {"outer": ren[0], "inner": ren[1], "receiver": ren[2], "window": ren[-1], "window_understood": understood}
